@@ -308,6 +308,13 @@ def run_side(exe, args, cases_path, out_path, timeout=3000, stdin_cases=True):
         raise RuntimeError("%s failed rc=%d: %s" % (exe, p.returncode, p.stderr.decode("utf-8", "replace")[-2000:]))
 
 
+DEGRADED = []
+
+
+class HarnessBroken(Exception):
+    pass
+
+
 def run_both(pid, mod, cases, rundir, tag="main", profile="release"):
     """Returns list of (case, impl_line, model_obs, verdict)."""
     low = pid.lower()
@@ -320,7 +327,25 @@ def run_both(pid, mod, cases, rundir, tag="main", profile="release"):
     with open(cp, "w") as f:
         for c in cases:
             f.write(c + "\n")
-    hexe = build_harness(getattr(mod, "HARNESS_BIN", low), profile)
+    try:
+        hexe = build_harness(getattr(mod, "HARNESS_BIN", low), profile)
+    except RuntimeError as e:
+        # The repository no longer compiles against the harness (an internal API changed).  The
+        # correspondence cannot be checked in full: remember that, and fall back to the part of the
+        # harness that uses the public API only, when the property module names one.
+        DEGRADED.append(str(e)[-1500:])
+        fb = getattr(mod, "FALLBACK_BIN", None)
+        if fb is None:
+            raise HarnessBroken(str(e))
+        try:
+            hexe = build_harness(fb, profile)
+        except RuntimeError as e2:
+            raise HarnessBroken(str(e2))
+        keep = getattr(mod, "fallback_supports", lambda c: True)
+        cases = [c for c in cases if keep(c)]
+        with open(cp, "w") as f:
+            for c in cases:
+                f.write(c + "\n")
     dexe = build_driver(getattr(mod, "DRIVER_PID", pid))
     run_side(hexe, getattr(mod, "HARNESS_ARGS", []), cp, ip)
     if not getattr(mod, "MARKED", False):
@@ -468,8 +493,12 @@ def main_check(pid, argv):
     cases = corpus + gen_cases
     profiles = getattr(mod, "PROFILES", ["release"])
     results = []
-    for prof in profiles:
-        results += [(prof,) + r for r in run_both(pid, mod, cases, rundir, tag="main-" + prof, profile=prof)]
+    broken = None
+    try:
+        for prof in profiles:
+            results += [(prof,) + r for r in run_both(pid, mod, cases, rundir, tag="main-" + prof, profile=prof)]
+    except HarnessBroken as e:
+        broken = str(e)
     known = [e for e in load_known() if e.get("property") == pid and e.get("kind") == "finding"]
     known_ids = {e["id"]: e for e in known}
     seen_known = {}
@@ -542,6 +571,14 @@ def main_check(pid, argv):
                                 dict(profile=prof, broken="Corr_%s: model observation differs from implementation observation" % pid,
                                      differing_cases=len(corr_fail), searched_extra_cases=len(extra)))
             violations.append(("correspondence", path, "no-failing-input-found"))
+    if (broken or DEGRADED) and not violations:
+        # the tie between model and code no longer checks: the harness does not build against this
+        # tree; no failing input was found by whatever part could still run
+        n += 1
+        path = os.path.join(rundir, "replay-%d.json" % n)
+        json.dump(dict(property=pid, kind="correspondence", broken="Corr_%s: the harness no longer compiles against the repository" % pid,
+                       compiler_output=(broken or DEGRADED[0])[-3000:], cases_still_run=len(results)), open(path, "w"), indent=1)
+        violations.append(("correspondence", path, "no-failing-input-found"))
     if not proof["ok"]:
         n += 1
         path = os.path.join(rundir, "replay-%d.json" % n)
